@@ -516,7 +516,9 @@ func (h *harness) evalGenerated(gd *GDoc, vars map[string]VarVal, dflt DefaultCo
 		}
 		sort.Strings(keys)
 		k := hx.Pick(r, keys)
-		bad[k] = hx.Pick(r, []VarVal{{"string", "not a number"}, {"float", "1.5"}, {"bool", "true"}})
+		// (values that no reading of Int / Big coercion accepts; a bool for an Int is left out on purpose:
+		// whether `true` coerces to 1 is C05's business and has changed upstream)
+		bad[k] = hx.Pick(r, []VarVal{{"string", "not a number"}, {"float", "1.5"}, {"string", ""}})
 		c := base
 		c.Vars = bad
 		c.OpName = names[0]
